@@ -93,9 +93,80 @@ def conversions(k_max=3, with_gen=True):
     out.append(("emit.argparse/return_with_prose", ("emit_ret", ("argparse", "prose"))))
     out.append(("emit.argparse/return_default_no_prose", ("emit_ret", ("argparse", "noprose"))))
     out.append(("emit.function/return_default_no_prose", ("emit_ret", ("function", "noprose"))))
+    out += twin_conversions()
     if with_gen:
         out.append(("gen/class+prepend_import", ("gen", "class")))
         out.append(("gen/function", ("gen", "function")))
+    return out
+
+
+# ----------------------------------------------------------------------------- twin family
+# Two interfaces that share every parameter name and type name (incl. the non-builtin type ``Path``) but differ in
+# defaults, prose and return entry; each in all seven kinds, as parse input (hand-written) and as emit input (IR).
+# Anything the library remembers under a name / type / phrase from one of them shows in the other.
+TWIN_SRC = {
+    ("function", "A"): ('def load(destination: Path, mode: Literal[\'r\', \'w\'] = \'r\', retries: int = 0):\n    """\n    Load things\n\n'
+                        '    :param destination: where to load from\n\n    :param mode: how to open\n\n    :param retries: how often\n    """\n'
+                        '    return [retries, mode]\n'),
+    ("function", "B"): ('def load(destination: Path = None, mode: Literal[\'r\', \'w\'] = \'w\', retries: int = 3) -> Optional[dict]:\n    """\n    Load other things\n\n'
+                        '    :param destination: where to store to\n\n    :param mode: how to write\n\n    :param retries: attempts\n    """\n'),
+    ("class", "A"): ('class Loader(object):\n    """\n    Load things\n\n    :cvar destination: where to load from\n    :cvar mode: how to open\n'
+                     '    :cvar retries: how often"""\n    destination: Path = None\n    mode: Literal[\'r\', \'w\'] = \'r\'\n    retries: int = 0\n'),
+    ("class", "B"): ('class Loader(object):\n    """\n    Load other things\n\n    :cvar destination: where to store to\n    :cvar mode: how to write\n'
+                     '    :cvar retries: attempts\n    :cvar return_type: the state"""\n    destination: Path = Path(\'.\')\n    mode: Literal[\'r\', \'w\'] = \'w\'\n'
+                     '    retries: int = 3\n    return_type: Optional[dict] = None\n'),
+    ("argparse", "A"): ('def set_cli_args(argument_parser):\n    """\n    Set CLI arguments\n\n    :param argument_parser: argument parser\n'
+                        '    :type argument_parser: ```ArgumentParser```\n\n    :returns: argument_parser\n    :rtype: ```ArgumentParser```\n    """\n'
+                        '    argument_parser.description = \'Load things\'\n'
+                        '    argument_parser.add_argument(\'--destination\', type=Path, help=\'where to load from\', required=True)\n'
+                        '    argument_parser.add_argument(\'--mode\', choices=(\'r\', \'w\'), help=\'how to open\', required=True, default=\'r\')\n'
+                        '    argument_parser.add_argument(\'--retries\', type=int, help=\'how often\', required=True, default=0)\n'
+                        '    return argument_parser\n'),
+    ("argparse", "B"): ('def set_cli_args(argument_parser):\n    """\n    Set CLI arguments\n\n    :param argument_parser: argument parser\n'
+                        '    :type argument_parser: ```ArgumentParser```\n\n    :returns: argument_parser, the state\n    :rtype: ```Tuple[ArgumentParser, Optional[dict]]```\n    """\n'
+                        '    argument_parser.description = \'Load other things\'\n'
+                        '    argument_parser.add_argument(\'--destination\', type=Path, help=\'where to store to\')\n'
+                        '    argument_parser.add_argument(\'--mode\', choices=(\'r\', \'w\'), help=\'how to write\', required=True, default=\'w\')\n'
+                        '    argument_parser.add_argument(\'--retries\', type=int, help=\'attempts\', required=True, default=3)\n'
+                        '    return argument_parser, None\n'),
+    ("rest", "A"): ('\nLoad things\n\n:param destination: where to load from\n:type destination: ```Path```\n\n:param mode: how to open. Defaults to r\n'
+                    ':type mode: ```Literal[\'r\', \'w\']```\n\n:param retries: how often. Defaults to 0\n:type retries: ```int```\n'),
+    ("rest", "B"): ('\nLoad other things\n\n:param destination: where to store to. Defaults to ```Path(\'.\')```\n:type destination: ```Path```\n\n'
+                    ':param mode: how to write. Defaults to w\n:type mode: ```Literal[\'r\', \'w\']```\n\n:param retries: attempts\n:type retries: ```int```\n\n'
+                    ':returns: the state\n:rtype: ```Optional[dict]```\n'),
+    ("numpydoc", "A"): ('\nLoad things\n\n\nParameters\n----------\ndestination : Path\n    where to load from\nmode : Literal[\'r\', \'w\']\n    how to open. Defaults to r\n'
+                        'retries : int\n    how often. Defaults to 0\n\n'),
+    ("numpydoc", "B"): ('\nLoad other things\n\n\nParameters\n----------\ndestination : Path\n    where to store to\nmode : Literal[\'r\', \'w\']\n    how to write. Defaults to w\n'
+                        'retries : int\n    attempts\n\nReturns\n-------\nOptional[dict]\n    the state\n\n'),
+    ("google", "A"): ('Load things\n\nArgs:\n  destination (Path): where to load from\n  mode (Literal[\'r\', \'w\']): how to open. Defaults to r\n'
+                      '  retries (int): how often. Defaults to 0\n'),
+    ("google", "B"): ('Load other things\n\nArgs:\n  destination (Path): where to store to\n  mode (Literal[\'r\', \'w\']): how to write. Defaults to w\n'
+                      '  retries (int): attempts\n\nReturns:\n  Optional[dict]: the state\n'),
+}
+TWIN_KINDS = ("function", "class", "argparse", "rest", "numpydoc", "google")
+
+
+def twin_ir(which):
+    from collections import OrderedDict
+
+    if which == "A":
+        return {"name": "load", "type": "static", "doc": "Load things", "params": OrderedDict((
+            ("destination", {"typ": "Path", "doc": "where to load from"}),
+            ("mode", {"typ": "Literal['r', 'w']", "doc": "how to open", "default": "r"}),
+            ("retries", {"typ": "int", "doc": "how often", "default": 0}))), "returns": None}
+    return {"name": "load", "type": "static", "doc": "Load other things", "params": OrderedDict((
+        ("destination", {"typ": "Path", "doc": "where to store to", "default": "```Path('.')```"}),
+        ("mode", {"typ": "Literal['r', 'w']", "doc": "how to write", "default": "w"}),
+        ("retries", {"typ": "int", "doc": "attempts"}))),
+        "returns": OrderedDict((("return_type", {"typ": "Optional[dict]", "doc": "the state", "default": "```None```"}),))}
+
+
+def twin_conversions():
+    out = []
+    for kind in TWIN_KINDS:
+        for which in "AB":
+            out.append(("twin/parse.%s/%s" % (kind, which), ("twin_parse", (kind, which))))
+            out.append(("twin/emit.%s/%s" % (kind, which), ("twin_emit", (kind, which))))
     return out
 
 
@@ -164,6 +235,23 @@ def run(spec):
         if arg == "argparse":
             return to_code(emit.argparse_function(ir))
         return emit.docstring(ir, docstring_format=arg)
+    if op == "twin_parse":
+        kind, which = arg
+        src = TWIN_SRC[(kind, which)]
+        if kind in ("rest", "numpydoc", "google"):
+            return canon(parse.docstring(src))
+        node = ast.parse(src).body[0]
+        return canon({"function": parse.function, "class": parse.class_, "argparse": parse.argparse_ast}[kind](node))
+    if op == "twin_emit":
+        kind, which = arg
+        ir = twin_ir(which)
+        if kind in ("rest", "numpydoc", "google"):
+            return emit.docstring(ir, docstring_format=kind)
+        if kind == "class":
+            return to_code(emit.class_(ir, class_name="Loader"))
+        if kind == "function":
+            return to_code(emit.function(ir, function_name=None, function_type=None))
+        return to_code(emit.argparse_function(ir))
     if op == "parse_class_plain":
         return canon(parse.class_(ast.parse(arg).body[0]))
     if op == "emit_dup_literal":
